@@ -123,8 +123,9 @@ def run_digests(world):
 
 
 def paths_for(cfg):
-    out = 'results' + cfg['ext']
-    bak = 'results.backup' + cfg['ext']
+    stem = cfg.get('out_stem', 'results')
+    out = stem + cfg['ext']
+    bak = stem + '.backup' + cfg['ext']
     return out, bak
 
 
@@ -161,6 +162,46 @@ def reference_run(cfg):
     world = new_world(cfg, pre)
     out = world.run_segment(('fresh', params), clock_seed=core.sub_seed(cfg['seed'], 'clock0'))
     return world, out, pre
+
+
+def neighbour_state(cfg, save_markers):
+    """Files left by the other simulation in the directory (same configuration, output name neighbour_stem()):
+    the real code ran in a world of its own and was killed inside a later save, so that its last complete
+    checkpoint is what its resume depends on.  Returns {'files': {path: bytes}, 'complete': {path: sha1}} or None."""
+    if not cfg.get('neighbour') or len(save_markers) < 2:
+        return None
+    nb_cfg = dict(cfg, preexisting_output=False, neighbour=False)
+    params = W.build_params(nb_cfg, out_name=W.neighbour_stem(cfg.get('out_stem', 'results')))
+    base = save_markers[min(1, len(save_markers) - 2)]  # inside the save after the first or second completed one
+    best = None
+    for k in (2, 3, 1, 4):
+        w = W.World(nb_cfg)
+        w.fs.record = False
+        o = w.run_segment(('fresh', params), {'kind': 'kill', 'at_op': base + k, 'tear': 0.5},
+                          clock_seed=core.sub_seed(cfg['seed'], 'clock0'))
+        if o['outcome'] != 'killed':
+            continue
+        files = {p: bytes(b) for p, b in w.fs.files.items()}
+        complete = {}
+        for p, raw in files.items():
+            try:
+                data = w.load_bytes(p, raw)
+            except Exception:  # noqa: BLE001
+                continue
+            if isinstance(data, dict) and 'simulation_parameters' in data and 'finished_run' in data:
+                complete[p] = hashlib.sha1(raw).hexdigest()
+        if not complete:
+            continue
+        st = {'files': files, 'complete': complete}
+        if len(complete) == 1 and len(files) > 1:
+            return st  # the vulnerable state: one complete checkpoint next to a partial file
+        best = best or st
+    return best
+
+
+def neighbour_untouched(nb, files):
+    """Paths of the neighbour's files that still hold the neighbour's bytes."""
+    return {p for p, raw in nb['files'].items() if p in files and bytes(files[p]) == raw}
 
 
 def sweep(world, cfg, tier, rng, stats):
@@ -434,12 +475,12 @@ def compare_results(ref, res, cfg, stats=None):
     return None
 
 
-def recover(world, cfg):
+def recover(world, cfg, skip=()):
     """What a user does after a crash: load the output, else the backup.  Returns (filename, data) or None."""
     import tenpy.tools.hdf5_io as h5mod
     out_p, bak_p = paths_for(cfg)
     ext = '.' + out_p.rsplit('.', 1)[-1]
-    others = sorted(p for p in world.fs.files if p not in (out_p, bak_p) and p.endswith(ext))
+    others = sorted(p for p in world.fs.files if p not in (out_p, bak_p) and p.endswith(ext) and p not in skip)
     for p in [out_p, bak_p] + others:
         raw = world.fs.files.get(p)
         if raw is None:
@@ -453,11 +494,36 @@ def recover(world, cfg):
     return None
 
 
-def run_history(plan, ref_results, pre_bytes, stats):
+def run_history(plan, ref_results, pre_bytes, stats, nb=None):
     """Execute one live history.  Returns a violation dict or None."""
     cfg = plan['cfg']
     world = new_world(cfg, pre_bytes)
     world._pre_bytes = pre_bytes
+    if nb is not None:
+        # the other simulation's files are in the directory from the start
+        for p, raw in nb['files'].items():
+            world.fs.files.setdefault(p, bytearray(raw))
+        stats['probes']['history_with_neighbour_simulation'] += 1
+
+    def own_files():
+        # what belongs to this simulation: everything except the neighbour's files as the neighbour left them
+        if nb is None:
+            return world.fs.files
+        keep = neighbour_untouched(nb, world.fs.files)
+        return {p: b for p, b in world.fs.files.items() if p not in keep}
+
+    def neighbour_violation(facts):
+        if nb is None:
+            return None
+        keep = neighbour_untouched(nb, world.fs.files)
+        if any(p in keep for p in nb['complete']):
+            return None
+        gone = sorted(nb['complete'])
+        f = dict(facts, out_stem=cfg.get('out_stem'), neighbour_files=sorted(nb['files']))
+        return {'invariant': 'disk.neighbour_checkpoint_destroyed',
+                'detail': f'a second simulation in the same directory (output {sorted(nb["files"])}) had been killed '
+                          f'inside a save; its only complete checkpoint {gone} was removed or overwritten by this '
+                          f'simulation: files now {sorted(world.fs.files)}', 'facts': f, 'trace': trace}
     world.fs.record = False  # the op log (with all bytes written) is only needed for the sweep of reference runs
     out_p, bak_p = paths_for(cfg)
     ev = StateEvaluator(world, out_p, bak_p)
@@ -519,10 +585,13 @@ def run_history(plan, ref_results, pre_bytes, stats):
                         'detail': f'{"resume_from_checkpoint" if start[0] == "resume" else "run_simulation"}() returned '
                                   f'None instead of the results dictionary', 'facts': facts, 'trace': trace}
             # the final file must be complete too
-            ok, cls, detail = ev.check(world.fs.files, n_done)
+            ok, cls, detail = ev.check(own_files(), n_done)
             if not ok:
                 inv = 'disk.partial_file_loads' if 'loads_unknown' in cls else 'disk.no_complete_file_after_finish'
                 return {'invariant': inv, 'detail': detail, 'facts': facts, 'trace': trace}
+            nv = neighbour_violation(facts)
+            if nv is not None:
+                return nv
             break
         if o['outcome'] == 'no_progress':
             return {'invariant': 'resume.no_progress' if start[0] == 'resume' else 'run.no_progress',
@@ -536,7 +605,10 @@ def run_history(plan, ref_results, pre_bytes, stats):
             return {'invariant': inv, 'detail': f"{err['type']} in {err['function']} ({err['file']}): {err['msg']}",
                     'facts': facts, 'trace': trace}
         # the process is gone (kill, KeyboardInterrupt, or it died with the injected OSError): I1
-        ok, cls, detail = ev.check(world.fs.files, n_done)
+        nv = neighbour_violation(facts)
+        if nv is not None:
+            return nv
+        ok, cls, detail = ev.check(own_files(), n_done)
         stats['crash_state_classes'][cls] += 1
         stats['distinct'].add(core.h64(('live', cfg['family'], cfg['ext'], seg, fired, o['outcome'], cls,
                                         min(n_done, 4))))
@@ -555,7 +627,7 @@ def run_history(plan, ref_results, pre_bytes, stats):
             # unsupported feature there, so only the file-consistency half (I1) is checked
             stats['probes']['vumps_history_ends_at_first_crash'] += 1
             return None
-        rec = recover(world, cfg)
+        rec = recover(world, cfg, skip=neighbour_untouched(nb, world.fs.files) if nb else ())
         if rec is None:
             stats['probes']['nothing_to_resume_from_yet'] += 1
             return None  # no checkpoint was ever completed: nothing is promised, nothing to resume
@@ -661,6 +733,9 @@ def _run_config(idx, tier, seed, ctx):
             # not canonical (seen with grouped sites: first run in a process vs later runs); informational
             stats['selftest']['bytes_differ'] = stats['selftest'].get('bytes_differ', 0) + 1
     rng = random.Random(core.sub_seed(seed, 'faults'))
+    nb = neighbour_state(cfg, ref['save_markers'])
+    if cfg.get('neighbour'):
+        stats['probes']['neighbour_state_built' if nb else 'neighbour_state_unavailable'] += 1
     # ---- sweep
     if not ctx.get('no_sweep'):
         for sv in sweep(world, cfg, tier, rng, stats)[:2]:
@@ -676,7 +751,7 @@ def _run_config(idx, tier, seed, ctx):
     for h in range(ctx['histories']):
         plan = gen_history(cfg, ref, rng)
         stats['histories'] += 1
-        v = run_history(plan, ref_results, pre, stats)
+        v = run_history(plan, ref_results, pre, stats, nb)
         if v is not None:
             v['plan'] = plan
             violations.append(v)
@@ -720,7 +795,8 @@ def replay_plan(plan, stats=None):
     world._pre_bytes = pre
     if not plan.get('ref_clock_reads'):
         plan = dict(plan, ref_clock_reads=out['clock_reads'])  # older replay files: liveness budget from this run
-    return run_history(plan, out['results'], pre, stats)
+    nb = neighbour_state(cfg, [sv['marker'] for sv in world.saves if sv['segment'] >= 0 and sv['completed']])
+    return run_history(plan, out['results'], pre, stats, nb)
 
 
 def minimise(found, budget_s=240.0):
@@ -751,7 +827,7 @@ def minimise(found, budget_s=240.0):
                        ('preexisting_output', False), ('conserve', None), ('save_every', 0.0), ('mixer', None),
                        ('measure_at_checkpoints', False), ('max_hours', None), ('N_sweeps_check', 1),
                        ('chi_list', None), ('group_sites', 1), ('measure_initial', True), ('save_stats', True), ('save_psi', True), ('canonicalize', False), ('wrapped_measurement', False), ('truncerr_measurement', False), ('start_time', 0.0), ('preserve_norm', None), ('combine', False), ('diag_method', 'default'), ('max_S_err', None), ('max_E_err', None), ('max_sweeps', 3), ('n_outer', 3), ('N_steps', 1), ('chi', 8), ('model', 'TFIChain'),
-                       ('order', 2)]
+                       ('order', 2), ('neighbour', False), ('out_stem', 'results')]
     for key, val in simplifications:
         if key in best['cfg'] and best['cfg'][key] != val and best['cfg'][key] is not None or (
                 key in best['cfg'] and val is None and best['cfg'][key] is not None):
